@@ -245,8 +245,8 @@ func (ld *Loaded) loadDumps(pkgDirs []string) error {
 		var names []string
 		for name, m := range sp.Members {
 			if g, ok := m.(*ssa.Global); ok {
-				if strings.Contains(name, "$") || name == "_" {
-					continue
+				if strings.Contains(name, "$") || name == "_" || strings.HasPrefix(name, "vx") || strings.HasPrefix(name, "Vx") {
+					continue // harness-declared globals do not exist in the native dump build
 				}
 				if dumpable(g.Type().(*types.Pointer).Elem(), 0) {
 					names = append(names, name)
